@@ -5,10 +5,10 @@
   Input lines (stdin), see harness/c13.cpp:
     F <local> <n> <p0> ... <p(n-1)>                                  p: `-` root, `g` global, else parent index
     M <method> <sender> <origin> <objzone> <execzone> <cmdep> <acfg> <acmd> <exists> <var>
-        | <objects> <files> <relayed> <executed> <replied> <fromzone> <hasendpoint>
+        | <objects> <files> <relayed> <executed> <replied> <fromzone> <hasendpoint> <foreign>
   Output lines:
-    MISMATCH line=<n> case=<k> kind=decision|fromzone|endpoint impl=<..> model=<..>
-    SPECFAIL line=<n> case=<k> clause=<name> method=<m>
+    MISMATCH line=<n> case=<k> kind=decision|fromzone|endpoint|confined impl=<..> model=<..>
+    SPECFAIL line=<n> case=<k> clause=<name> method=<m> fc13a=<0|1>      (fc13a: the case lies in the class F-C13a)
     BADLINE line=<n>
     STATS cases=.. forests=.. accepted=.. refused=.. nontrivial=.. <per class a_/r_ counts> fz_none=.. fz_sender=.. fz_claimed=.. ...
 -/
@@ -92,18 +92,31 @@ def handle (d : DSt) (n : Nat) (line : String) : IO DSt := do
   | "M" :: rest =>
     let (pre, post) := splitBar rest
     match d.forest, pre, post with
-    | some f, [mname, snd, org, oz, ez, cmdep, acfg, acmd, ex, _var], [ob, fi, re, exe, _rep, fz, hasEp] =>
+    | some f, [mname, snd, org, oz, ez, cmdep, acfg, acmd, ex, var], [ob, fi, re, exe, _rep, fz, hasEp, frn] =>
       match Method.ofName? mname, parseSender snd, parseZoneTok org, parseZoneTok oz, parseZoneTok ez,
-            parseBool? cmdep, parseBool? acfg, parseBool? acmd, parseBool? ex,
-            parseBool? ob, parseBool? fi, parseBool? re, parseBool? exe, parseZoneTok fz, parseBool? hasEp with
+            parseNat? cmdep, parseBool? acfg, parseBool? acmd, parseBool? ex,
+            parseBool? ob, parseBool? fi, parseBool? re, parseBool? exe, parseZoneTok fz, parseBool? hasEp,
+            parseNat? var, parseBool? frn with
       | some m, some (auth, epz), some org, some oz, some ez, some cmdep, some acfg, some acmd, some ex,
-        some ob, some fi, some re, some exe, some fz, some hasEp =>
+        some ob, some fi, some re, some exe, some fz, some hasEp, some var, some frn =>
+        -- config::UpdateObject: the variant says whether the target exists, whether a config text is sent and whether
+        -- the version is newer (harness/c13.cpp, `var`); config::DeleteObject: variant 1 names a non-API object
+        let updObj := m == .configUpdateObject
         let c : Ctx := { authenticated := auth, endpointZone := epz, originZone := org, localZone := d.localZone,
-                         objExists := ex, objZone := oz, senderIsCommandEndpoint := cmdep && epz.isSome,
+                         objExists := if updObj then (var == 1 || var == 2 || var == 4 || var == 5) else ex,
+                         objZone := oz,
+                         -- only command_endpoint == the sender's own endpoint counts (1); its zone mate (2) or the
+                         -- receiver (3) as command endpoint give the sender nothing
+                         senderIsCommandEndpoint := cmdep == 1 && epz.isSome,
                          execEndpointZone := if ex && m == .executedCommand then ez else none,
                          forwardZone := if m == .executeCommand then ez else none,
-                         acceptConfig := acfg, acceptCommands := acmd }
-        let o : Obs := { objects := ob, files := fi, relayed := re, executed := exe }
+                         acceptConfig := acfg, acceptCommands := acmd,
+                         configEmpty := updObj && (var == 3 || var == 4),
+                         versionNewer := !(updObj && var == 2),
+                         apiPackage := !(m == .configDeleteObject && var == 1),
+                         childLacksCapability := m == .executeCommand && ez.isSome && var == 2,
+                         hostInaccessibleToChild := m == .executeCommand && ez.isSome && var == 3 }
+        let o : Obs := { objects := ob, files := fi, relayed := re, executed := exe, foreign := frn }
         let mut d := { d with caseNo := d.caseNo + 1 }
         -- origin construction (jsonrpcconnection.cpp:316-327) against the probe
         if c.endpoint.isSome != hasEp then
@@ -113,14 +126,18 @@ def handle (d : DSt) (n : Nat) (line : String) : IO DSt := do
           IO.println s!"MISMATCH line={n} case={d.caseNo} kind=fromzone impl={showOptZone fz} model={showOptZone c.fromZone}"
           d := { d with mismatches := d.mismatches + 1 }
         -- decision
-        let acc := accepts f m c
+        let acc := applies f m c
         if acc != o.applied then
           IO.println s!"MISMATCH line={n} case={d.caseNo} kind=decision method={mname} impl={showBool o.applied} model={showBool acc}"
+          d := { d with mismatches := d.mismatches + 1 }
+        -- connection bookkeeping stays on the sender's own Endpoint object (model: `observe`)
+        if touchesOnlySenderEndpoint m && o != (observe f m c o) then
+          IO.println s!"MISMATCH line={n} case={d.caseNo} kind=confined method={mname} impl=other model=own-endpoint-only"
           d := { d with mismatches := d.mismatches + 1 }
         -- the property on the implementation's own observation
         match specStep f m c o with
         | some cl =>
-          IO.println s!"SPECFAIL line={n} case={d.caseNo} clause={cl.name} method={mname}"
+          IO.println s!"SPECFAIL line={n} case={d.caseNo} clause={cl.name} method={mname} fc13a={showBool (inFC13a f m c)}"
           d := { d with specfails := d.specfails + 1 }
         | none => pure ()
         -- statistics
@@ -139,7 +156,7 @@ def handle (d : DSt) (n : Nat) (line : String) : IO DSt := do
         if c.endpoint.isSome && !d.seen.contains key then
           d := { d with seen := d.seen.insert key, nontrivial := d.nontrivial + 1 }
         return d
-      | _, _, _, _, _, _, _, _, _, _, _, _, _, _, _ => IO.println s!"BADLINE line={n}"; return d
+      | _, _, _, _, _, _, _, _, _, _, _, _, _, _, _, _, _ => IO.println s!"BADLINE line={n}"; return d
     | _, _, _ => IO.println s!"BADLINE line={n}"; return d
   | _ => IO.println s!"BADLINE line={n}"; return d
 
